@@ -228,3 +228,22 @@ prop(
         "the schedule is not reproducible; a violation's replay file carries the recorded history",
     ],
 )
+
+prop(
+    "C20",
+    batches={"quick": 16, "thorough": 16},
+    timeout={"quick": 400, "thorough": 3000},
+    heapmax=0,
+    env={"GOMAXPROCS": "1"},
+    rule="generated well-formed messages (library-built: 0..16 attributes drawn from every typed attribute, both address families, text "
+         "sizes incl. the limits, UNKNOWN-ATTRIBUTES up to 20 entries, raw attributes up to 1200 B, optional MESSAGE-INTEGRITY with "
+         "keys 0..120 B and FINGERPRINT); per message and warm-up regime (S1: Message/destinations first used for a strictly larger "
+         "message; S2: first used for the same message) testing.AllocsPerRun(100) of Decode, Write, UnmarshalBinary, Get, Contains, "
+         "ForEach, Get(absent), each typed GetFrom, Parse, MessageIntegrity.Check, Fingerprint.Check and Build with pre-boxed pointer "
+         "setters; a non-zero count must repeat in a second measurement to count. Dedicated process per batch, GOMAXPROCS=1, GC off "
+         "during measurement. evaluations = measured operations; distinct_nontrivial = distinct messages",
+    assumptions=[
+        "MessageIntegrity as a *setter* is excluded from Build (the repository documents that it allocates); UNKNOWN-ATTRIBUTES lists are capped at 20 entries (documented)",
+        "testing.AllocsPerRun averages over 100 runs with integer division: sporadic runtime allocations do not count, an allocation per call does",
+    ],
+)
